@@ -98,5 +98,6 @@ package topics
 //@   ensures[C06:level] err == nil && len(rem) > 0 ==> sameslice(rem, topic[len(topic)-len(rem):])
 //@   ensures[C06:noslash] err == nil ==> forall(0, len(level), func(j int) bool { return level[j] != '/' })
 //@   ensures[C06:wild-alone] err == nil && len(level) > 1 ==> forall(0, len(level), func(j int) bool { return level[j] != '#' && level[j] != '+' })
+//@   ensures[C06:mwc-last] err == nil && len(topic) > 0 && topic[0] == '#' ==> len(level) == len(topic) && len(rem) == 0
 //@   ensures[C06:dollar] len(topic) > 0 && topic[0] == '$' ==> err != nil
 //@   modifies nothing
